@@ -8,7 +8,7 @@ import SqlgrepModel.Drivers.Print
 /- Driver handler for the END-TO-END cases (kind `e2e`): raw texts, raw file bytes, all oracle tables.
 
   e2e xDEFS xQUERY FMT SINGLE (files xBYTES…) (fs (xPATH xBYTES)…) CLS NUMS (rx (xPATTERN 0|1)…)
-      (lines (l xLINE (caps (xRE none|(G…))…) (splits (xRE xFIELD…)…) nojson|(json J))…) (f64 (xTEXT BITS|none)…)
+      (lines (l xLINE (caps (xRE none|(G…))…) (splits (xRE xFIELD…)…) nojson|notjson|compute|(json J))…) (f64 (xTEXT BITS|none)…)
       (oracles …) (reals (BITS xFIXED2 xJSON)…)
 
   FMT = text | json | (csv xDELIM); SINGLE = 0|1 (display option `single_result`); CLS / NUMS as in kind `tok`
@@ -38,9 +38,11 @@ def splitEntry? : Sexp → Option (Text × List Text)
 
 def lineEntry? : Sexp → Option (Text × LineFacts)
   | .list [.atom "l", line, .list (.atom "caps" :: caps), .list (.atom "splits" :: splits), json] => do
-    let j ← match json with
-      | .atom "nojson" => some none
-      | .list [.atom "json", j] => (Drivers.Extract.jsonOfSexp j).map some
+    let j : Option (Option Json) ← match json with
+      | .atom "nojson" => some (some none)
+      | .atom "notjson" => some (some none)
+      | .atom "compute" => some none
+      | .list [.atom "json", j] => (Drivers.Extract.jsonOfSexp j).map (fun d => some (some d))
       | _ => none
     pure (← line.bytes?, { captures := ← caps.mapM capEntry?, splits := ← splits.mapM splitEntry?, json := j })
   | _ => none
